@@ -4,9 +4,10 @@ use libfuzzer_sys::fuzz_target;
 use vcore::fuzzdec;
 
 fuzz_target!(|data: &[u8]| {
+    fuzzdec::init();
     let case = fuzzdec::c17_case(data);
     if let Some(f) = fuzzdec::run_c17(&case) {
         fuzzdec::report("C17", &case, &f);
-        panic!("C17 violated: {}: {}", f.sig, f.msg);
+        fuzzdec::fail("C17", &f);
     }
 });
